@@ -180,6 +180,17 @@ class FuseConvPad(_FuseConvPadBase):
 class FuseConvIntegerPad(FuseConvPad):
     """Replaces ``ConvInteger(Pad(x))`` with ``ConvInteger(x)``."""
 
+    def check(self, context, x: ir.Value, pad: ir.Value, conv: ir.Value) -> orp.MatchResult:
+        check_result = super().check(context, x, pad, conv)
+        if not check_result:
+            return check_result
+        # Pad fills with 0 whereas ConvInteger pads with x_zero_point: only equivalent for a zero point of 0.
+        conv_node = conv.producer()
+        if len(conv_node.inputs) > 2 and (x_zero_point := conv_node.inputs[2]) is not None:
+            if x_zero_point.const_value is None or np.any(x_zero_point.const_value.numpy() != 0):
+                return check_result.fail(f"{x_zero_point.name} must be a constant equal to 0.")
+        return check_result
+
     def pattern(self, op, x):
         return op.ConvInteger(
             op.Pad(x, _allow_other_inputs=True, _outputs=["pad"]),
